@@ -282,7 +282,20 @@ def run_placement_case(scheme, cid, cfg, db, acc, rng, forked=False):
             prelude(rng)
             acc.count("placement.with_prelude")
         edb1 = sch.EDBSetup(key1, copy.deepcopy(db))
-        if forked:
+        if forked == "twins":
+            # ... or in two fresh interpreters that agree on the wall-clock second, process id and hash seed
+            from vlib import twin
+            import tempfile
+            case["forked"] = "twins"
+            same_key = PLACEMENT[scheme] == "same-key"
+            ra, rb = twin.run_pair({"kind": "c06", "scheme": scheme, "cfg": cfg, "db": db,
+                                    "key_bytes": key1.serialize() if same_key else None}, tempfile.gettempdir())
+            if ra is None or rb is None:
+                acc.count("placement.twin_failed")
+                return False
+            acc.count("placement.twin_pairs")
+            (m1, levels1), (m2, _) = ra, rb
+        elif forked:
             # the two setups that are compared run in two worker processes forked now, after the parent's own setup
             acc.count("placement.forked_pairs")
             case["forked"] = True
@@ -345,9 +358,12 @@ def run_placement_case(scheme, cid, cfg, db, acc, rng, forked=False):
     else:
         same = m1 == m2
     if same:
-        acc.violation(f"{short}:placement-repeats" + (":forked-workers" if forked else ""),
+        acc.violation(f"{short}:placement-repeats" + (":twin-interpreters" if forked == "twins" else
+                                                      ":forked-workers" if forked else ""),
                       f"{scheme}: two setups of one database ({PLACEMENT[scheme]}"
-                      + (", in two worker processes forked after the parent's own setup" if forked else "") +
+                      + (", in two fresh interpreters started in the same second with the same process id and hash seed"
+                         if forked == "twins" else
+                         ", in two worker processes forked after the parent's own setup" if forked else "") +
                       f") put all {nslots} array-resident blocks of all {len(m1)} keywords at identical positions", case)
     # input-order check: slots must not simply follow the processing order (first setup only)
     return True
@@ -470,7 +486,8 @@ def run_shard(spec, acc, ctx):
                 acc.count("placement.config_skipped")
                 continue
             n_pl = acc.counters.get("placement.cases." + gen.SHORT[scheme], 0)
-            if run_placement_case(scheme, cid, cfg, db, acc, rng, forked=(n_pl % 8 == 3)):
+            if run_placement_case(scheme, cid, cfg, db, acc, rng,
+                                  forked=("twins" if n_pl % 40 == 6 else n_pl % 8 == 3)):
                 acc.add("distinct", sse.case_fp(scheme, cid, db))
             acc.count("cases")
             if first:
@@ -482,7 +499,8 @@ def run_shard(spec, acc, ctx):
 def replay(case, acc, ctx):
     scheme = case["scheme"]
     if case.get("db_class") == "placement":
-        run_placement_case(scheme, case["cfg_id"], case["cfg"], case["db"], acc, ctx.rng, forked=bool(case.get("forked")))
+        run_placement_case(scheme, case["cfg_id"], case["cfg"], case["db"], acc, ctx.rng,
+                           forked=("twins" if case.get("forked") == "twins" else bool(case.get("forked"))))
     else:
         run_sorted_case(scheme, case["cfg_id"], case["cfg"], case.get("db_class", "?"), case["db"], acc, ctx.rng)
     acc.count("replayed")
@@ -492,6 +510,8 @@ def finish(m, tier, seed):
     c = m["counters"]
     inc = []
     per = {}
+    if c.get("placement.twin_pairs", 0) < 4:
+        inc.append("placement was compared across fewer than 4 pairs of twin interpreters")
     if c.get("placement.forked_pairs", 0) < 10:
         inc.append("placement was not compared across forked workers")
     for s in gen.SORTED_TABLE_SCHEMES:
@@ -534,6 +554,7 @@ def finish(m, tier, seed):
         "keywords_with_different_slots": c.get("keywords_with_different_slots", 0),
         "setup_failed": c.get("setup_failed", 0),
         "placement_pairs_built_in_forked_workers": c.get("placement.forked_pairs", 0),
+        "placement_pairs_built_in_twin_interpreters": c.get("placement.twin_pairs", 0),
         "placement_cases_preceded_by_the_all_scheme_prelude": c.get("placement.with_prelude", 0),
         "tables_with_more_than_65536_entries": c.get("big_table_cases", 0),
         "dp17_shared_buckets": pairs,
